@@ -15,7 +15,7 @@ import numpy as np
 
 from .. import env  # noqa
 from ..runner import ddmin_list
-from ..seams import FaultPlan
+from ..seams import FaultPlan, InjectedFault
 from ..session import SimEnv, SeededOutcomes
 from ..spec import program_fp, fp_diff
 from ..world import Violation
@@ -101,7 +101,13 @@ def generate_crop(seed, tier):
             for _ in range(r.randint(1, 3)):
                 arr[r.randrange(T)] = 0.0
         params.append(arr)
-        ops.append({"op": "BSgate", "p": [{"tdm": len(params) - 1}, rnd(r, 0, 3)], "m": [pos[i + 1], pos[i]]})
+        phase = rnd(r, 0, 3)
+        if r.random() < 0.35:
+            # the coupler's phase is given per time bin too (exact zeros included: a phase of 0 is a setting like any other)
+            zs = r.choice([T, r.randint(0, T), 0])
+            params.append([0.0] * zs + [rnd(r, 0, 3) for _ in range(T - zs)])
+            phase = {"tdm": len(params) - 1}
+        ops.append({"op": "BSgate", "p": [{"tdm": len(params) - 2 if isinstance(phase, dict) else len(params) - 1}, phase], "m": [pos[i + 1], pos[i]]})
         if r.random() < 0.5:
             params.append([rnd(r, 0, 3) for _ in range(T)])
             ops.append({"op": "Rgate", "p": [{"tdm": len(params) - 1}], "m": [pos[i + 1]]})
@@ -163,6 +169,12 @@ def generate(seed, tier, batch):
     # the leading mode of every band is measured, in band order, as the last commands of the bin
     for j in range(nb):
         ops.append({"op": "MeasureHomodyne", "p": [par(3.0)], "m": [starts[j]]})
+    r2 = random.Random("c13b:%d" % seed)  # a second stream: later additions do not shift the programs of earlier seeds
+    for o in ops:
+        if o["op"] != "MeasureHomodyne" and r2.random() < 0.12:
+            o["dag"] = True  # the hand-written loop applies the inverse gate in every bin
+        elif o["op"] == "MeasureHomodyne" and batch in ("loop", "loop-wide") and r2.random() < 0.12:
+            o["select"] = rnd(r2, -0.6, 0.6)  # post-selected measurement: every pulse of the band is conditioned on this value
     if nb > 1 and r.random() < 0.3:
         # ... or in another order: the measurement commands act on different modes, so any order is the same program
         tail = ops[-nb:]
@@ -175,6 +187,8 @@ def generate(seed, tier, batch):
         foreign = {"N": fN, "T": r.randint(1, 3), "measure_offset": r.randrange(2)}
     script = {"N": N, "T": T, "params": params, "ops": ops, "tape": seed, "history": [], "kind": batch if batch != "loop-wide" else "loop", "foreign_tdm": foreign,
               "shift": "default" if (nb > 1 or r.random() < 0.6) else 1}
+    if r2.random() < 0.2:
+        script["crash_first"] = {"k": r2.randint(0, 3 + 2 * len(ops)), "when": r2.choice(["before", "after"]), "exc": r2.choice(["InjectedFault", "KeyboardInterrupt", "MemoryError"])}
     if batch == "shift":
         # any integer shift (whole-register rotation): the joint state of the pulses is checked; the arrangement of the returned samples is
         # the listed finding KF-C13-int-shift-samples and is not looked at here
@@ -184,6 +198,8 @@ def generate(seed, tier, batch):
         script["final"] = {"shots": r.choice([1, 2]), "space_unroll": False, "crop": False}
     elif batch in ("loop", "loop-wide"):
         script["final"] = {"shots": r.choice([1, 1, 2, 3]), "space_unroll": False, "crop": False}
+        if any(o.get("select") is not None for o in ops):
+            script["final"]["shots"] = 1  # documented: post-selection cannot be combined with several shots
     elif batch == "space":
         script["final"] = r.choice([{"shots": None, "space_unroll": True, "crop": False}, {"shots": None, "space_unroll": True, "crop": True}])
     else:
@@ -227,7 +243,9 @@ def build_tdm(script):
     with prog.context(*script["params"], shift=script.get("shift", "default")) as (p, q):
         for o in script["ops"]:
             ps = [p[e["tdm"]] if isinstance(e, dict) else e for e in o["p"]]
-            op = getattr(sfops, o["op"])(*ps)
+            op = getattr(sfops, o["op"])(*ps, **({"select": o["select"]} if o.get("select") is not None else {}))
+            if o.get("dag"):
+                op = op.H
             op | tuple(q[m] for m in o["m"]) if len(o["m"]) > 1 else op | q[o["m"][0]]
     return prog
 
@@ -293,6 +311,8 @@ def reference(script, nbins, rotate=True):
                     continue
                 regs = [q[pos[m]] for m in o["m"]]
                 op = getattr(sfops, o["op"])(*ps)
+                if o.get("dag"):
+                    op = op.H
                 op | tuple(regs) if len(regs) > 1 else op | regs[0]
             pos = rotate_positions(pos, N, script.get("shift", "default"))
     return ref, pulses, nmodes
@@ -311,7 +331,11 @@ def execute(script, w):
     nbins = T * (shots or 1)
     ctx = {"cur": None, "events": [], "count": {}, "observing": False}
 
+    sel_of_band = {band_of(script, j_): o_["select"] for j_, o_ in enumerate(script["ops"]) if o_["op"] == "MeasureHomodyne" and o_.get("select") is not None}
+
     def inj(j, g):
+        if j in sel_of_band:
+            return sel_of_band[j] / math.sqrt(sf.hbar / 2)  # dictated by the program, not by the scheduler
         k = g * nb + j
         return round(0.17 * (k + 1) * (-1) ** k / (1 + 0.05 * k), 6)
 
@@ -324,6 +348,10 @@ def execute(script, w):
             c = ctx["count"].get(mode, 0)
             ctx["count"][mode] = c + 1
             ctx["cur"] = {"reg": mode, "k": c}
+            if k.get("select") is not None:
+                # post-selected: no draw; the value the backend is told to condition on is the event
+                ctx["events"].append({"pulse": pulse_of(mode, c), "mean": None, "var": None, "v": float(k["select"]) / math.sqrt(sf.hbar / 2), "selected": True})
+                ctx["cur"]["selected"] = True
         else:
             ctx["cur"] = None
 
@@ -343,6 +371,8 @@ def execute(script, w):
 
     def handler(name, args, kwargs, native):
         cur = ctx["cur"]
+        if cur is not None and cur.get("selected") and name == "normal":
+            return 0.0  # the conjugate quadrature of a post-selected homodyne measurement (drawn by the library, weight eps^2): injected as 0 like everywhere
         if cur is None or name != "multivariate_normal":
             return fallback(name, args, kwargs, native)
         j, g = pulse_of(cur["reg"], cur["k"])
@@ -354,7 +384,8 @@ def execute(script, w):
         y = np.array([v, 0.0])
         return np.tile(y, (int(size), 1)) if size else y
 
-    simenv = SimEnv(w, fallback, FaultPlan(), on_call=on_call)
+    plan = FaultPlan()
+    simenv = SimEnv(w, fallback, plan, on_call=on_call)
     with simenv:
         simenv.rng.handler = handler
         try:
@@ -397,11 +428,6 @@ def execute(script, w):
                     w.violation("history", "is_unrolled-after-roll", None, feats + ["history"])
                     return
 
-        # ---- the observed run
-        ctx["observing"] = True
-        ctx["count"] = {}
-        ctx["events"] = []
-        eng = simenv.engine("gaussian")
         kwargs = {}
         if shots != 1:
             kwargs["shots"] = shots
@@ -409,6 +435,40 @@ def execute(script, w):
             kwargs["space_unroll"] = True
         if final["crop"]:
             kwargs["crop"] = True
+
+        # ---- an interrupted run first (fault): a backend call of a run of the same program fails; the user's program must be what it was
+        # (the engine works on an unrolled copy that shares the register), then the observed run is made on a new engine
+        cf = script.get("crash_first")
+        if cf:
+            plan.n = 0
+            plan.arm(cf["k"], cf["when"], cf["exc"])
+            w.step("crash_run", k=cf["k"], when=cf["when"])
+            fired = False
+            fp_before = program_fp(prog, with_ids=False)
+            reg_before = [(k_, v_.ind, v_.active) for k_, v_ in prog.reg_refs.items()]
+            try:
+                simenv.engine("gaussian").run(prog, **kwargs)
+            except (InjectedFault, KeyboardInterrupt, MemoryError):
+                fired = plan.fired
+            except Exception:  # noqa - whatever the run itself raises is judged at the observed run below
+                pass
+            plan.disarm()
+            if fired:
+                d = fp_diff(fp_before, program_fp(prog, with_ids=False))
+                regn = [(k_, v_.ind, v_.active) for k_, v_ in prog.reg_refs.items()]
+                if d or regn != reg_before:
+                    w.violation("history", "interrupted-run-leaves-program-untouched", {"diff": d, "register_before": reg_before, "register_after": regn, "run_options": final,
+                                                                                       "crash": cf}, feats + ["crash"])
+                    return
+                w.probes["interrupted_run_left_program_untouched"] += 1
+            else:
+                w.probes["crash_not_reached"] += 1
+
+        # ---- the observed run
+        ctx["observing"] = True
+        ctx["count"] = {}
+        ctx["events"] = []
+        eng = simenv.engine("gaussian")
         w.step("run", **{k_: str(v_) for k_, v_ in kwargs.items()})
         try:
             res = eng.run(prog, **kwargs)
@@ -529,7 +589,14 @@ def execute(script, w):
                 # rounding in both computations is relative to the largest (anti-squeezed) entries of the joint covariance
                 big = 1 + float(np.max(np.abs(cov))) / 20
                 tolm = 2e-6 * (1 + abs(m) + maxval) * (1 + v) * big
-                if abs(e["mean"] - m) > tolm or abs(e["var"] - v) > 1e-5 * (1 + v) * big:
+                if e.get("selected"):
+                    if pz[0] not in sel_of_band or abs(e["v"] - inj(*pz)) > 1e-12:
+                        w.violation("loop", "post-selection-value-of-pulse", {"pulse": pz, "library_select": e["v"], "program_select": sel_of_band.get(pz[0])}, hist_feats)
+                        return
+                elif pz[0] in sel_of_band:
+                    w.violation("loop", "post-selected-measurement-sampled-instead", {"pulse": pz, "program_select": sel_of_band[pz[0]]}, hist_feats)
+                    return
+                elif abs(e["mean"] - m) > tolm or abs(e["var"] - v) > 1e-5 * (1 + v) * big:
                     w.violation("loop", "conditional-distribution-of-pulse", {"pulse": pz, "library_mean": e["mean"], "reference_mean": m, "library_var": e["var"],
                                                                               "reference_var": v, "n_conditioned_on": ncond, "history": script["history"]}, hist_feats)
                     return
@@ -659,6 +726,14 @@ def shrink(script):
     meas = [o for o in ops if o["op"] == "MeasureHomodyne"]
     for cand in ddmin_list(gates, 0):
         yield dict(script, ops=cand + meas)
+    for i, o in enumerate(ops):
+        if o.get("dag") or o.get("select") is not None:
+            o2 = {k_: v_ for k_, v_ in o.items() if k_ not in ("dag", "select")}
+            yield dict(script, ops=ops[:i] + [o2] + ops[i + 1:])
+    if script.get("crash_first"):
+        yield {k_: v_ for k_, v_ in script.items() if k_ != "crash_first"}
+        if script["crash_first"]["exc"] != "InjectedFault":
+            yield dict(script, crash_first=dict(script["crash_first"], exc="InjectedFault"))
     if meas != sorted(meas, key=lambda o: o["m"][0]):
         yield dict(script, ops=gates + sorted(meas, key=lambda o: o["m"][0]))
     # fewer time bins
